@@ -291,6 +291,27 @@ def lincomb(F, R, I_, cfg):
         t = LC.terms(ret)
         bad_tables = [d for ok, d in ip.models.table_checks if not ok]
         rec = {sid: (kind, w) for kind, w, sid in getattr(ip.models, "recodings", [])}
+        if t is None and not bad_tables:
+            # the sign of a digit was tested with two separate comparisons (`if d > 0 {..} else if d < 0 {..}`): an interval-free domain cannot correlate
+            # them, so the routine is decided once with every digit positive and once with every digit negative; both must give the full sum
+            per_sign = []
+            for sgn in (1, -1):
+                try:
+                    rs, ips = LC.run(F, f, args, digit_sign=sgn)
+                except Exception:
+                    per_sign = None
+                    break
+                if unwrap and rs is not None and rs[0] == "en":
+                    oks_ = [fs[0] for v, fs in rs[1] if v == 1 and fs]
+                    rs = oks_[0] if {v for v, _ in rs[1]} == {1} and oks_ else None
+                ts = LC.terms(rs) if rs is not None else None
+                if ts is None or [d for ok_, d in ips.models.table_checks if not ok_]:
+                    per_sign = None
+                    break
+                per_sign.append((ts, ips))
+            if per_sign and per_sign[0][0] == per_sign[1][0]:
+                t, ip = per_sign[0]
+                rec = {sid: (kind, w) for kind, w, sid in getattr(ip.models, "recodings", [])}
         if t is None:
             R.viol("C04.lincomb", I_(inst), "the result is not a linear combination of the inputs in the abstract domain (%s)" % ("; ".join(sorted(set(bad_tables))) or "an operation outside the modelled group operations reached the result"), F.loc(f))
             return None
